@@ -205,12 +205,21 @@ class ReusePropertyGroupIdentifier(Scenario):
         b = a if same_obj else _make(ws, 2, U[1])
         db = b.add_data({"db": {"values": _np.zeros(2)}})
         before = sorted((str(p.uid), p.name) for p in ws.property_groups)
+        via_foc = bool(cx.bool("requested_through_find_or_create"))
         try:
-            pgb = b.create_property_group(name="pgb", properties=[db.uid], uid=U[2] if same else U[3])
+            if via_foc:
+                pgb = b.find_or_create_property_group(name="pgb", properties=[db.uid], uid=U[2] if same else U[3])
+            else:
+                pgb = b.create_property_group(name="pgb", properties=[db.uid], uid=U[2] if same else U[3])
             refused = False
         except RuntimeError:
             refused, pgb = True, None
-        cx.prove(refused == same, "a property-group identifier in use is refused, a free one accepted", "reuse refused")
+        if via_foc and same and same_obj:
+            # find-or-create on the owner itself finds the group
+            cx.prove(pgb is pga, "find_or_create with the identifier of the object's own group returns that group", "lookup")
+        else:
+            cx.prove(refused == same, "a property-group identifier in use is refused, a free one accepted", "reuse refused")
+            cx.prove(pgb is not pga, "a request on another object never hands out the owner's group", "reuse refused")
         live = [p for p in ws.property_groups if p.uid == U[2]]
         cx.prove(len(live) == 1 and live[0] is pga, "the identifier still belongs to its one owner", "uniqueness")
         if refused:
@@ -360,11 +369,26 @@ class RecreateAfterRemoval(Scenario):
                 return holder.add_data({"d": {"values": _np.zeros(2), "uid": U[0]}})
             return _make(ws, kind, U[0])
         a = make(ka)
+        kids = []
+        if ka in (1, 2):        # an object is removed together with its children
+            kids = [a.add_data({f"child{q}": {"values": _np.zeros(2) + q, "uid": U[3 + q]}}) for q in range(3)]
         ws.remove_entity(a)
-        del a
+        del a, kids
         gc.collect()
         if listed:
             _ = (ws.groups, ws.objects, ws.data)
+        if ka in (1, 2):
+            # the identifier of a removed child is free again, for this session and for the file
+            again = holder.add_data({"child again": {"values": _np.ones(2) * 9, "uid": U[4]}})
+            cx.prove(ws.get_entity(U[4])[0] is again, "the identifier of a removed child can be given to new data", "re-create")
+            ws.close()
+            ws_r = Workspace(ws.h5file)
+            back = ws_r.get_entity(U[4])[0]
+            cx.prove(back is not None and back.name == "child again" and [float(v) for v in back.values] == [9.0, 9.0],
+                     "after re-opening, the identifier of the removed child belongs to the new data (name and values)", "re-create")
+            ws_r.close()
+            ws.open()
+            holder = ws.get_entity(U[1])[0]
         b = make(kb)
         cx.prove(b.uid == U[0], "a released identifier can be given to a new entity", "re-create")
         got = ws.get_entity(U[0])
